@@ -19,6 +19,7 @@ type TapEv struct {
 	N    int  // global event number
 	Rpc  *Rpc // deep copy taken at write time
 	Orig *Rpc // the very pointer written (identity checks on by-reference links)
+	Lost bool // accepted by a link whose reading side had failed
 }
 
 // LinkCfg are the per-link draws (DESIGN 3.3).
@@ -42,7 +43,8 @@ func (c LinkCfg) String() string {
 
 type pendingWrite struct {
 	rpc  *Rpc
-	done chan struct{} // closed when the envelope was read (rendezvous)
+	done chan struct{} // closed when the envelope was read (rendezvous) or the write failed
+	err  error         // set before done is closed when the write failed
 }
 
 // Link is one direction of a connection.
@@ -137,6 +139,16 @@ func (l *Link) ReadCount() int { l.mu.Lock(); defer l.mu.Unlock(); return l.nRea
 func (l *Link) FailRead(err error) {
 	l.mu.Lock()
 	l.readErr = err
+	// what was written but not read is lost; writers blocked on it return (the
+	// data went nowhere), and later writes are accepted and dropped unless the
+	// write side is failed too
+	for _, pw := range append(append([]*pendingWrite{}, l.inflight...), l.arrived...) {
+		select {
+		case <-pw.done:
+		default:
+			close(pw.done)
+		}
+	}
 	l.inflight, l.arrived = nil, nil
 	rs := l.readers
 	l.readers = nil
@@ -155,6 +167,17 @@ func (l *Link) FailRead(err error) {
 func (l *Link) FailWrite(err error) {
 	l.mu.Lock()
 	l.writeErr = err
+	// writes still in flight (accepted, not delivered) fail with the connection;
+	// a writer blocked in a rendezvous write gets the error
+	for _, pw := range l.inflight {
+		select {
+		case <-pw.done:
+		default:
+			pw.err = err
+			close(pw.done)
+		}
+	}
+	l.inflight = nil
 	ws := l.spaceW
 	l.spaceW = nil
 	l.mu.Unlock()
@@ -262,6 +285,13 @@ func (l *Link) write(ctx context.Context, rpc *Rpc) error {
 			l.mu.Unlock()
 			return ctx.Err()
 		}
+		if l.readErr != nil {
+			// the reading side is gone: the transport still accepts data, which goes nowhere
+			l.nWritten++
+			l.Tap = append(l.Tap, TapEv{N: l.env.NextEv(), Rpc: cloneRpc(rpc), Orig: rpc, Lost: true})
+			l.mu.Unlock()
+			return nil
+		}
 		if l.Cfg.Cap > 0 && len(l.inflight)+len(l.arrived) >= l.Cfg.Cap {
 			w := make(chan struct{})
 			l.spaceW = append(l.spaceW, w)
@@ -309,7 +339,7 @@ func (l *Link) write(ctx context.Context, rpc *Rpc) error {
 		// rendezvous: return only once the envelope was read
 		select {
 		case <-pw.done:
-			return nil
+			return pw.err
 		case <-ctx.Done():
 			l.mu.Lock()
 			for i, p := range l.inflight {
